@@ -166,7 +166,10 @@ def law_search(ctx, runs=20000):
         G.nodes[u]["r"] = w
     cases.append((G, dict(transmission_weight="w", recovery_weight="r"), [0], 3.0, 2.0, 1.0))
     G = nx.complete_graph(4); cases.append((G, {}, [0], 3.0, 1.5, 1.0))
-    for G, kw, infs, T, tau, gamma in cases:
+    for ci, (G, kw, infs, T, tau, gamma) in enumerate(cases):
+        # the chain is time-homogeneous: started at tmin its law at tmin + T is the master-equation solution at T, whatever tmin
+        # (start times before -1, after 0 and at 0 are cycled through)
+        tmin = [-3.0, 0.0, 2.5, -3.0, 0.0, -20.0][ci % 6]
         nodes = list(G)
         ew = (lambda u, v: G.edges[u, v]["w"]) if kw else (lambda u, v: 1.0)
         nw = (lambda u: G.nodes[u]["r"]) if kw else (lambda u: 1.0)
@@ -174,8 +177,8 @@ def law_search(ctx, runs=20000):
         cnt = {s: 0 for s in states}
         random.seed(12345); np.random.seed(12345)
         for _ in range(runs):
-            sim = EoN.fast_SIS(G, tau, gamma, initial_infecteds=infs, tmax=T + 1, return_full_data=True, **kw)
-            st = sim.get_statuses(time=T)
+            sim = EoN.fast_SIS(G, tau, gamma, initial_infecteds=infs, tmin=tmin, tmax=tmin + T + 1, return_full_data=True, **kw)
+            st = sim.get_statuses(time=tmin + T)
             cnt[tuple(1 if st[u] == "I" else 0 for u in nodes)] += 1
         worst = None
         for s, pe in zip(states, p):
@@ -195,5 +198,5 @@ def law_search(ctx, runs=20000):
         if worst and worst[0] > 6:
             ctx.violation("fast_SIS: state distribution at time T differs from the master equation (%.1f sigma: state %s simulated %.4f exact %.4f)"
                           % worst, dict(entry="fast_SIS", stream="master-equation", n=G.order(), edges=list(map(list, G.edges())),
-                                        weighted=bool(kw), infs=infs, T=T, tau=tau, gamma=gamma, seed=12345, runs=runs,
+                                        weighted=bool(kw), infs=infs, tmin=tmin, T=T, tau=tau, gamma=gamma, seed=12345, runs=runs,
                                         state=list(worst[1]), simulated=worst[2], exact=worst[3]))
